@@ -511,6 +511,11 @@ func lexIdentOrKeyword(l *lexer) stateFn {
 					l.emit(TokenIdent)
 				} else {
 					l.emit(t)
+					if t == TokenLambda || t == TokenAnd || t == TokenOr {
+						// An operand follows, not a binary operator:
+						// a '/' starts a regex and a '*' is the star literal.
+						return lexToken
+					}
 				}
 			} else {
 				l.emit(TokenIdent)
